@@ -514,15 +514,15 @@ var factCleanEnd = &fact{id: "clean-end", what: "the database decoder succeeds o
 			return false
 		}
 		// (i) EOF test on the list decoder's error, EOF edge
-		if v, ok := isEOFTest(ce.If.Cond); ok {
-			_, neg := ir.Peel(ce.If.Cond)
-			core, _ := ir.Peel(ce.If.Cond)
+		if v, ok := isEOFTest(ce.RawCond); ok {
+			_, neg := ir.Peel(ce.RawCond)
+			core, _ := ir.Peel(ce.RawCond)
 			isEq := true
 			if bo, ok := core.(*ssa.BinOp); ok && bo.Op == token.NEQ {
 				isEq = false
 			}
 			eofOnTrue := isEq != neg
-			succTrue := fn.Blocks[ce.Edge.From].Succs[0].Index == ce.Edge.To
+			succTrue := ce.RawTruth
 			if eofOnTrue == succTrue {
 				for _, oc := range errorOrigins(v, map[ssa.Value]bool{}) {
 					if callee := ir.Callee(oc); callee != nil && c.P.InLib(callee) && c.readCone()[callee] {
@@ -556,7 +556,7 @@ var factCleanEnd = &fact{id: "clean-end", what: "the database decoder succeeds o
 func (c *Ctx) eofProvenance(db, rl *ssa.Function) {
 	usesEOF := false
 	for _, ce := range ir.CondEdges(db) {
-		if _, ok := isEOFTest(ce.If.Cond); ok {
+		if _, ok := isEOFTest(ce.RawCond); ok {
 			usesEOF = true
 		}
 	}
@@ -824,18 +824,18 @@ func (c *Ctx) directEdgeExcludes(fn *ssa.Function, pred, blk *ssa.BasicBlock, e 
 // blockExcludesEOF: block b is dominated by the non-EOF edge of an EOF test on e.
 func (c *Ctx) blockExcludesEOF(fn *ssa.Function, b *ssa.BasicBlock, e ssa.Value) bool {
 	for _, ce := range ir.DominatingConds(fn, b) {
-		v, ok := isEOFTest(ce.If.Cond)
+		v, ok := isEOFTest(ce.RawCond)
 		if !ok || !(sameErrValue(v, e) || v == e) {
 			continue
 		}
-		_, neg := ir.Peel(ce.If.Cond)
-		core, _ := ir.Peel(ce.If.Cond)
+		_, neg := ir.Peel(ce.RawCond)
+		core, _ := ir.Peel(ce.RawCond)
 		isEq := true
 		if bo, ok := core.(*ssa.BinOp); ok && bo.Op == token.NEQ {
 			isEq = false
 		}
 		eofOnTrue := isEq != neg
-		succTrue := fn.Blocks[ce.Edge.From].Succs[0].Index == ce.Edge.To
+		succTrue := ce.RawTruth
 		if eofOnTrue != succTrue {
 			return true
 		}
